@@ -240,4 +240,32 @@ theorem eq_of_nodup_map {α β} (f : α → β) : ∀ (l : List α), (l.map f).N
       · exact absurd (by rw [← e2, ← hf]; exact List.mem_map_of_mem m1) hnd.1
       · exact ih hnd.2 a m1 a' m2 hf
 
+
+/-- a tagged left-over scaffold, under `NoClash`: its assembly is keyed by the tag and is not curated -/
+theorem tagged_extra_route_of_build (input : List Scaffold) (b : Build) (outs : List OutAsm) (stats : Stats)
+    (haf : assembliesFused input b = .ok (outs, stats)) (hnc : NoClash (fuseByName b))
+    (e : Scaffold × Option (Fragment × List Gap)) (he : e ∈ b.extra) (hrows : e.1.rows ≠ [])
+    (htr : truthy e.1.tag = true) :
+    ∃ a ∈ outs, a.key = e.1.tag ∧ a.curated = false ∧ ∃ s ∈ a.scaffolds, e.1.rows <:+: s.rows := by
+  obtain ⟨_, f2, _, _⟩ := fuse_keeps_tag b
+  obtain ⟨s, hs, htri, hinf⟩ := f2 e he hrows
+  obtain ⟨_, r2, _⟩ := assembliesFused_route input b outs stats haf
+  obtain ⟨a, ha, hk, s', hs', hnn⟩ := r2 s hs
+  have t1 : s.tag = e.1.tag := congrArg (·.1) htri
+  have hcur := assembliesFused_curated input b outs stats haf hnc s hs a ha hk
+  refine ⟨a, ha, ?_, ?_, s', hs', (noName_fields hnn).1 ▸ hinf⟩
+  · rw [hk, routeKey_of_truthy (t1 ▸ htr), t1]
+  · rw [hcur, t1, htr]; rfl
+
+/-- a fragment row of an output scaffold is a valid interval -/
+theorem output_fragment_valid (input ptx : List Scaffold) (prefix_ : Str) (joinGap : Option Gap) (err : Int)
+    (outs : List OutAsm) (stats : Stats) (hwf : C01.WFInput input)
+    (h : remap input ptx prefix_ joinGap err = .ok (outs, stats))
+    (a : OutAsm) (ha : a ∈ outs) (s : Scaffold) (hs : s ∈ a.scaffolds) (f : Fragment) (hf : Row.frag f ∈ s.rows) :
+    f.start ≤ f.stop := by
+  have hkO : f.keyTuple ∈ C01.outputTriples outs := by
+    rw [outputTriples_eq]
+    exact List.mem_flatMap.mpr ⟨a, ha, List.mem_flatMap.mpr ⟨s, hs, mem_keysOf_of_frag _ _ hf⟩⟩
+  exact ((C01.remap_partitions input ptx prefix_ joinGap err outs stats hwf h).2 _ hkO).1
+
 end AgpTpf.C09
